@@ -504,3 +504,24 @@ Proof.
     + injection H as <-. left. eapply ov_transform. exact Et.
   - injection H as <-. right. eapply parse_loop_errors. exact Ep.
 Qed.
+
+(* ---------------------------------------------------------------- with the table validator: no internal driver error *)
+From MF Require Import Proofs.LRFacts Proofs.GrammarFacts.
+
+Theorem loads_errors_strong ip ic text e :
+  loads ip ic text = Err e ->
+  e = LarkVisitError \/ lark_syntax_error e \/ e = OutOfFuel.
+Proof.
+  unfold loads, parse_tree, parse_text, parse_text_tr. intros H.
+  destruct (snd (parse_loop the_grammar the_hook ic (S (length text)) (ls0 text) [g_start the_grammar] [] []))
+    as [po|e0] eqn:Ep; cbn [bind] in H.
+  - destruct (transform ip ic _) as [r|e1] eqn:Et; cbn [bind] in H.
+    + destruct (tv_to_value_total r) as [v Ev]. rewrite Ev in H. discriminate.
+    + injection H as <-. left. eapply ov_transform. exact Et.
+  - injection H as <-. right.
+    destruct (parse_loop_safe the_grammar the_hook ic the_grammar_table_ok the_grammar_types_ok
+                              _ _ _ _ _ e0 (wf_start the_grammar) Ep) as [Hc|[Ht|Hf]].
+    + left. left. exact Hc.
+    + left. right. exact Ht.
+    + right. exact Hf.
+Qed.
